@@ -18,7 +18,7 @@ LOOKBEHIND = {'pepsin ph1.3', 'pepsin ph2.0', 'staphylococcal peptidase i', 'pro
               'factor xa', 'enterokinase', 'granzyme b'} | {f'caspase {k}' for k in range(1, 11)}
 
 MODES = ['base', 'base', 'nc', 'nf', 'startnf', 'sec', 'multi', 'rules', 'exc', 'collapse', 'rules',
-         'adj', 'stop', 'sect', 'w2f', 'lowmass', 'stop']
+         'adj', 'stop', 'sect', 'w2f', 'lowmass', 'stop', 'as', 'as']
 
 
 def tryptic_protein(r, n_pep, alphabet=refgen.PEPTIDE_AAS, plen=(3, 8)):
@@ -123,6 +123,17 @@ def make_case(r, mode, work, idx, tier):
         seq = refgen.rand_dna(r, u5) + refgen.encode(r, prot) + r.choice(refgen.STOPS) + refgen.rand_dna(r, r.randrange(6, 15))
         b.add_gene(seq, r.choice([1, -1]), r.randrange(1, 3), True, u5, u5 + 3 * len(prot) + 3, (), (), prot)
         ref = b.finish()
+    elif mode == 'as':
+        # multi-exon transcript with introns long enough to donate inserted / substituted segments
+        b = refgen.Builder(r)
+        if r.random() < 0.6:
+            seq, cs, ce, secs, prot = refgen.make_coding_tx_seq(r, r.randrange(24, 40), r.randrange(3, 10), r.randrange(6, 16))
+            b.add_gene(seq, r.choice([1, -1]), r.randrange(3, 5), True, cs, ce, secs, (), prot, intron=(10, 24),
+                       flank=(r.randrange(0, 6), r.randrange(0, 6)))
+        else:
+            b.add_gene(refgen.rand_noncoding(r, r.randrange(90, 150)), r.choice([1, -1]), r.randrange(3, 5), False, intron=(10, 24),
+                       flank=(r.randrange(0, 6), r.randrange(0, 6)))
+        ref = b.finish()
     else:
         ref = refgen.random_reference(r, **kw)
     if mode == 'startnf':
@@ -133,6 +144,7 @@ def make_case(r, mode, work, idx, tier):
     paths = ref.write(d)
     allv, txrecs = [], []
     secmap = {}
+    as_lines = []
     for t in ref.txs.values():
         if mode == 'multi' and r.random() < 0.3:
             continue
@@ -151,14 +163,38 @@ def make_case(r, mode, work, idx, tier):
                     if sp - 2 > max(t.cds_start + 3, sp - 18) else None]
             cand = [v for v in cand if v]
             vs = cand + [v for v in vs if not any(x['start'] <= v['end'] and v['start'] <= x['end'] for x in cand)]
-        if vs:
+        asr = []
+        if mode == 'as':
+            asr = cvgen.as_records(r, ref, t, n=r.choice([1, 1, 2]), min_tx_pos=(t.cds_start + 3) if t.coding else 3)
+            vs = vs[:r.randrange(0, 4)]
+            as_lines += asr
+        if vs or asr:
             allv += vs
-            txrecs.append(dict(tx=cvgen.tx_record(ref, t), vars=[cvgen.var_record(v) for v in vs]))
+            recs = [cvgen.var_record(v) for v in vs]
+            as_meta = []
+            for a in asr:
+                recs.append(cvgen.var_record(a['var']))
+                m = a['meta']
+                as_meta.append(dict(idx=len(recs), kind=m['kind'], start=m['start'], end=m['end'], dstart=m['dstart'], dend=m['dend'],
+                                    ref=m['ref']))
+            tr = dict(tx=cvgen.tx_record(ref, t), vars=recs)
+            tr['as'] = as_meta
+            if as_meta:
+                tr['struct'] = cvgen.tx_struct(ref, t)
+            txrecs.append(tr)
             secmap[t.id] = cvgen.sec_ids(ref, t)
-    if not allv:
+    if not allv and not as_lines:
         return None
     g = os.path.join(d, 'v.gvf')
     cvgen.write_gvf(g, allv)
+    gvfs = [g] if allv else []
+    if as_lines:
+        ga = os.path.join(d, 'as.gvf')
+        with open(ga, 'w') as f:
+            f.write(cvgen.AS_HEAD.format(parser='parseRMATS', source='AltSplicing'))
+            for a in sorted(as_lines, key=lambda x: x['gpos']):
+                f.write(a['line'] + '\n')
+        gvfs.append(ga)
     rules = ('trypsin',)
     if mode == 'rules':
         rules = QUICK_RULES if tier == 'quick' else ALL_RULES
@@ -174,13 +210,14 @@ def make_case(r, mode, work, idx, tier):
         cfg['max_len'] = 25
     a = dict(paths)
     a.update(cvgen.cli_cfg(cfg))
-    a.update(input_path=[g], output_path=os.path.join(d, 'out.fasta'), max_variants_per_node=[-1],
+    a.update(input_path=gvfs, output_path=os.path.join(d, 'out.fasta'), max_variants_per_node=[-1],
              additional_variants_per_misc=[-1])
     if mode == 'collapse':
         a.update(min_nodes_to_collapse=r.choice([0, 1, 3]), naa_to_collapse=r.choice([1, 2, 5]))
     case = dict(txs=txrecs, cfg=cvgen.spec_cfg(cfg), proteome=cvgen.proteome_record(ref))
     return dict(mode=mode, args=a, case=case, cfg=cfg, gtf=ref.gtf_lines(), chroms=ref.chroms, secmap=secmap,
-                variants=[(v['tx'], v['start'], v['ref'], v['alt'], v['id']) for v in allv])
+                variants=[(v['tx'], v['start'], v['ref'], v['alt'], v['id']) for v in allv] +
+                         [(a['var']['tx'], a['var']['start'], a['var']['ref'], a['var']['alt'], a['var']['id'], a['line']) for a in as_lines])
 
 
 def run_tool(items, want_table=False, extra_args=None, timeouts=None):
